@@ -527,7 +527,7 @@ fn main() {
         let strip = |n: &str| -> String { let t = n.trim_start_matches('0'); if t.is_empty() { "0".to_string() } else { t.to_string() } };
         let big = |n: &str| { let d = n.bytes().all(|b| b.is_ascii_digit()); let n = strip(n); d && (n.len() > 19 || (n.len() == 19 && n.as_str() >= "9223372036854775807")) };
         let p = Pattern::new("p-*").unwrap_or_else(|e| run.fault(&format!("p-*: {}", e)));
-        run.bound(format!("large numbers: {} numbers of 17..26 digits (d x 10^k and neighbours), all pairs in which at most one exceeds i64::MAX, as a version component, both argument orders", nums.len()));
+        run.bound(format!("large numbers: {} numbers of 17..26 digits (d x 10^k and neighbours), all pairs in which at most one exceeds i64::MAX, as a version component (those that fit an i64 also as the revision), both argument orders", nums.len()));
         let idx: Vec<usize> = (0..nums.len()).collect();
         par_items(&run, "C06 large numbers", &idx, |_, i, t| {
             for j in 0..nums.len() {
@@ -535,7 +535,13 @@ fn main() {
                 if big(x) && big(y) {
                     continue;
                 }
-                let (a, b) = (format!("p-1.{}", x), format!("p-1.{}", y));
+              for as_revision in [false, true] {
+                let digits = |n: &str| n.bytes().all(|b| b.is_ascii_digit());
+                // as the revision only numbers that fit: what a revision beyond i64 counts as is open
+                if as_revision && !(digits(x) && digits(y) && !big(x) && !big(y)) {
+                    continue;
+                }
+                let (a, b) = if as_revision { (format!("p-1.0nb{}", x), format!("p-1.0nb{}", y)) } else { (format!("p-1.{}", x), format!("p-1.{}", y)) };
                 // the reference order saturates at i64::MAX; with at most one component beyond it, that
                 // is the numeric order
                 let numeric = dewey::cmp(&dewey::tokenise(version_of(&a), LetterWeight::Rank), &dewey::tokenise(version_of(&b), LetterWeight::Rank));
@@ -558,6 +564,7 @@ fn main() {
                     }
                     other => t.violation(Violation::new("pair", json!({"pattern": "p-*", "pkg1": a, "pkg2": b}), json!(want), json!(format!("{:?}", other)), "a digit run is its numeric value: the candidate with the numerically larger component wins")),
                 }
+              }
             }
         });
     }
